@@ -270,7 +270,8 @@ def linear_task(task):
     """One long history in one repository for a large max_retained_runs (None: the default, 10): the
     slot counter wraps from a multi-digit id back to 1. After every run the same observations as in
     the BFS are judged."""
-    maxr, pattern, length = task
+    maxr, pattern, length = task[:3]
+    with_listener = len(task) > 3 and task[3] == "listener"
     eff = 10 if maxr is None else maxr
     s = sc.Scratch("c12lin")
     try:
@@ -279,6 +280,16 @@ def linear_task(task):
             raise common.EngineError("checkpoint update failed")
         history, ran, viol = [], {}, []
         obs = set()
+        if with_listener:
+            import subprocess
+            lis = subprocess.Popen([common.MONORAIL, "log", "tail", "--stdout", "--stderr"], cwd=r.dir, env=s.env(),
+                                   stdout=subprocess.DEVNULL, stderr=subprocess.DEVNULL, start_new_session=True)
+            s.popens.append(lis)
+            t_end = time.time() + 10
+            while not sc.port_listening(r.log_port):
+                if lis.poll() is not None or time.time() > t_end:
+                    raise common.EngineError("log tail did not start")
+                time.sleep(0.02)
         for i in range(length):
             ri = pattern[i % len(pattern)]
             res = r.mr("run", *RUNS[ri]["args"], env=r.trace_env())
@@ -293,7 +304,7 @@ def linear_task(task):
             if v:
                 viol += [(sig, "after run %d of the history: %s" % (i + 1, d)) for sig, d in v]
                 break
-        case = {"linear": [maxr, list(pattern), length]}
+        case = {"linear": [maxr, list(pattern), length] + (["listener"] if with_listener else [])}
         return {"transitions": len(history), "obs": sorted(obs),
                 "violations": [{"sig": sig, "detail": d, "rank": 100000 + len(history), "case": case} for sig, d in viol]}
     except common.EngineError as e:
@@ -307,7 +318,7 @@ def linear_task(task):
 def linear_cases(tier):
     pats = [(0, 1, 2, 3), (2,), (0,)]
     out = [(m, p, 2 * (m or 10) + 3) for m in (10, None, 11) for p in pats]
-    out += [(9, pats[0], 21)]
+    out += [(9, pats[0], 21), (2, pats[0], 9, "listener"), (3, (2, 0, 1), 10, "listener")]
     if tier != "quick":
         out += [(100, pats[0], 203), (100, pats[1], 103), (12, pats[0], 27), (20, pats[0], 43), (99, pats[0], 102), (101, pats[0], 104)]
     return out
@@ -376,7 +387,7 @@ def run(prop, tier):
             agg["traces_validated_against_impl"] += r["transitions"]
             agg["violations"].extend(r["violations"])
             obs.update(r["obs"])
-        agg["long_histories"] = [{"max_retained_runs": m if m is not None else "default", "pattern": [RUNS[i]["name"] for i in p], "runs": n} for (m, p, n) in lin]
+        agg["long_histories"] = [{"max_retained_runs": x[0] if x[0] is not None else "default", "pattern": [RUNS[i]["name"] for i in x[1]], "runs": x[2], "listener": len(x) > 3} for x in lin]
     finally:
         store_s.cleanup()
     agg["distinct_result_documents"] = len(obs)
@@ -398,8 +409,8 @@ def replay(prop, path):
     body = json.load(open(path))
     case = body["case"]
     if "linear" in case:
-        m, p, n = case["linear"]
-        r = linear_task((m, tuple(p), n))
+        m, p, n = case["linear"][:3]
+        r = linear_task((m, tuple(p), n) + tuple(case["linear"][3:]))
         if "engine_error" in r:
             print("ENGINE:", r["engine_error"])
             return 2
